@@ -72,6 +72,7 @@ func (o *Operations) archive(
 	}
 
 	hdrs := []*tar.Header{}
+	var srcErr error // A source which could not be opened after earlier entries have been written
 	for {
 		file, err := getSrc()
 		if err == io.EOF {
@@ -79,6 +80,13 @@ func (o *Operations) archive(
 		}
 
 		if err != nil {
+			// Index the entries that are on the tape already before giving up
+			if len(hdrs) > 0 {
+				srcErr = err
+
+				break
+			}
+
 			return []*tar.Header{}, err
 		}
 
@@ -120,6 +128,13 @@ func (o *Operations) archive(
 
 			f, err = file.GetFile()
 			if err != nil {
+				// Index the entries that are on the tape already before giving up
+				if len(hdrs) > 0 {
+					srcErr = err
+
+					break
+				}
+
 				return []*tar.Header{}, err
 			}
 
@@ -280,7 +295,7 @@ func (o *Operations) archive(
 	}
 	defer o.backend.CloseReader()
 
-	return hdrs, recovery.Index(
+	if err := recovery.Index(
 		reader,
 		o.backend.MagneticTapeIO,
 		o.metadata,
@@ -313,5 +328,9 @@ func (o *Operations) archive(
 				Header:  hdr,
 			})
 		},
-	)
+	); err != nil {
+		return hdrs, err
+	}
+
+	return hdrs, srcErr
 }
